@@ -39,8 +39,12 @@ def cmpLex {α : Type} (c : α → α → Ordering) : List α → List α → Or
 /-! ## IEEE-754 binary64 / binary32 at the bit level -/
 namespace F64
 
-/-- `f64::is_nan` on the bit pattern: exponent all ones, mantissa non-zero -/
-def isNaN (b : Nat) : Bool := decide (0x7FF0000000000000 < b % 0x8000000000000000)
+/-- `f64::is_nan` on the bit pattern: exponent all ones, mantissa non-zero, either sign.
+(Written as two intervals rather than with `% 2^63` so that the functions below are total on
+`Nat` without a `< 2^64` side condition: a "pattern" ≥ 2^64 — which no `u64` is, and which the
+driver never produces — simply counts as a negative NaN.) -/
+def isNaN (b : Nat) : Bool :=
+  decide ((0x7FF0000000000000 < b ∧ b < 0x8000000000000000) ∨ 0xFFF0000000000000 < b)
 /-- `f64::is_sign_negative` -/
 def isNeg (b : Nat) : Bool := decide (0x8000000000000000 ≤ b)
 /-- the key of `f64::total_cmp` (`bits ^ (((bits >> 63) as u64) >> 1)` read as `i64`):
